@@ -68,6 +68,8 @@ def cases(ctx):
     for outer in ("hex", "hexcu", "cart", "cartoff"):
         for inner in (None, "hex", "hexcu", "cart"):
             out.append({"kind": "nest", "outer": outer, "inner": inner, "rings": 3 if ctx.quick else 4})
+    for outer in ("cart", "hex", "hexcu"):
+        out.append({"kind": "nest3d", "outer": outer, "dz": 4.0, "nk": 3, "rings": 3 if ctx.quick else 5})
     return out
 
 
@@ -501,7 +503,68 @@ def _eval_nest(case):
     return vs, nev, nev
 
 
-_EVAL = {"hex": _eval_hex, "hexcount": _eval_hexcount, "cart": _eval_cart, "axial": _eval_axial, "thetarz": _eval_thetarz, "nest": _eval_nest}
+def _eval_nest3d(case):
+    """axial grid nested in a step-defined 3-D radial grid whose cells have k >= 0: complete indices
+    add in all three axes (axial-in-radial), coordinates add."""
+    import numpy as np
+
+    from armi.reactor import composites, grids
+
+    vs = []
+
+    def bad(key, msg, **kw):
+        c = dict(case)
+        c.update(kw)
+        vs.append(core.viol("c07/" + key, msg, c))
+
+    dz = case["dz"]
+    n = case["rings"]
+    if case["outer"] == "cart":
+        us = ((9.0, 0.0, 0.0), (0.0, 7.0, 0.0), (0.0, 0.0, dz))
+        mk = lambda owner: grids.CartesianGrid(unitSteps=us, unitStepLimits=((-n, n), (-n, n), (0, case["nk"])), armiObject=owner)
+        cells = list(itertools.product(range(-n + 1, n), repeat=2))
+        xy = lambda i, j: (9.0 * i, 7.0 * j)
+    else:
+        cu = case["outer"] == "hexcu"
+        raw = [list(r) for r in grids.HexGrid._getRawUnitSteps(10.0, cu)]
+        raw[2] = [0.0, 0.0, dz]
+        mk = lambda owner: grids.HexGrid(unitSteps=tuple(tuple(r) for r in raw), unitStepLimits=((-n, n), (-n, n), (0, case["nk"])), armiObject=owner)
+        cells = hex_cells(n)
+        ui, uj = hex_unit(10.0, cu)
+        xy = lambda i, j: (i * ui[0] + j * uj[0], i * ui[1] + j * uj[1])
+    root = composites.Composite("root")
+    top = composites.Composite("core")
+    root.add(top)
+    top.spatialGrid = mk(top)
+    zb = [0.0, 1.0, 2.5]
+    nev = 0
+    for i, j in cells:
+        for k in range(case["nk"]):
+            a = composites.Composite("a")
+            top.add(a)
+            a.spatialLocator = top.spatialGrid[i, j, k]
+            x, y = xy(i, j)
+            if not _close(a.spatialLocator.getGlobalCoordinates(), (x, y, k * dz)):
+                bad("nest3d-outer-coords", "3-D cell (%d,%d,%d) at %s expected %s" % (i, j, k, list(a.spatialLocator.getGlobalCoordinates()), (x, y, k * dz)), cell=[i, j, k])
+            a.spatialGrid = grids.AxialGrid(bounds=(None, None, np.array(zb)), armiObject=a)
+            for kk in range(2):
+                nev += 1
+                b = composites.Composite("b")
+                a.add(b)
+                b.spatialLocator = a.spatialGrid[0, 0, kk]
+                loc = b.spatialLocator
+                ci = tuple(int(v) for v in loc.getCompleteIndices())
+                if ci != (i, j, k + kk):
+                    bad("nest-complete-indices", "axial cell %d in 3-D radial cell (%d,%d,%d): complete indices %s, expected %s" % (kk, i, j, k, ci, (i, j, k + kk)), cell=[i, j, k, kk])
+                want = (x, y, k * dz + (zb[kk] + zb[kk + 1]) / 2)
+                if not _close(loc.getGlobalCoordinates(), want):
+                    bad("nest-coords", "axial cell %d in 3-D radial cell (%d,%d,%d): global %s expected %s" % (kk, i, j, k, list(loc.getGlobalCoordinates()), want), cell=[i, j, k, kk])
+                if tuple(int(v) for v in loc.indices) != (0, 0, kk):
+                    bad("nest-indices-mutated", "getCompleteIndices changed the local indices", cell=[i, j, k, kk])
+    return vs, nev, nev
+
+
+_EVAL = {"hex": _eval_hex, "hexcount": _eval_hexcount, "cart": _eval_cart, "axial": _eval_axial, "thetarz": _eval_thetarz, "nest": _eval_nest, "nest3d": _eval_nest3d}
 
 
 def run(ctx):
